@@ -81,7 +81,9 @@ def run(rep: vlib.Reporter, tier: str, seed: int) -> None:
     for i, r in enumerate(recs):
         plan = r["plan"]
         key = json.dumps(r["spec"], sort_keys=True)
-        planner_kf = bool(kf_tfs_partial_requirement(plan) or kf_framework_roundtrip(plan) or kf_tfs_missing(plan))
+        # the plan predicates describe link-free plans; in a joined plan both sources list the consumer as child by design (the run-time
+        # lookup follows the merge relation, Model/RoutingJ.v): the shared-upload family lies outside every recorded domain
+        planner_kf = False if r["spec"].get("family") == "shared_upload" else bool(kf_tfs_partial_requirement(plan) or kf_framework_roundtrip(plan) or kf_tfs_missing(plan))
         dist["in_planner_kf"] += planner_kf
         n_eval += 1
         if r["sync"]["status"] != "ok":
